@@ -382,6 +382,17 @@ def array_repeat {ρ} (_x n : Nat) : M ρ ArrayBuf := pure ⟨n⟩
 def Chr.rs_encode_utf8 {ρ} (c : Chr) (buf : ArrayBuf) : M ρ Str := fun s =>
   if c.b.length ≤ buf.n then .next ⟨c.b⟩ s else .ub .oob
 
+/-- the tuple-struct constructor `LeanString(repr)`: `repr(transparent)` -/
+def LeanString {ρ} (r : Handle) : M ρ Handle := pure r
+/-- `other.0.method(..)`: run a `&self` method on the two words of *another* `LeanString` (the heap is shared,
+`self` is put back afterwards) -/
+def onRepr {ρ α} (other : Handle) (m : M ρ α) : M ρ α := fun s =>
+  match m { s with self := other } with
+  | .next a s' => .next a { s' with self := s.self }
+  | .done v s' => .done v { s' with self := s.self }
+  | .pidx s' => .pidx { s' with self := s.self }
+  | .ub u => .ub u
+
 /-! ## Constants the source names -/
 
 def MAX_INLINE_SIZE : Nat := MAX_INLINE
